@@ -110,6 +110,17 @@ def check(ctx):
         for nm in ("D", "H"):
             ctx.require(R3, ht.get(nm) == ("Ok", EXPECT_OK[nm]), "%s:%s" % (hb_.file, hb_.line), "a group or hook used twice without a cycle still resolves (`%s`: %s)" % (nm, ht.get(nm)),
                         ["acmed::config::Config::do_get_hook", "no-false-cycle", nm])
+    # read_cnf's visited set is keyed by CANONICAL paths, for the test as well as for the record (shared with C14.R4): a cycle spelled
+    # through `..` or a symlink is a cycle
+    from .guards import visited_guard as _vg2
+    rc_ = prog.must_body("acmed::config::read_cnf")
+    pl2 = [i for i in range(1, rc_.arg_count + 1) if rc_.local_ty(i).startswith("&mut ") and any(t in rc_.local_ty(i) for t in ("Vec<", "HashSet<", "BTreeSet<"))]
+    if pl2:
+        _neg, ins2, tests2, _rev = _vg2(rc_, lambda sl: sl.has_leaf("param:%d" % pl2[0]))
+        for c in tests2:
+            ctx.require(R3, arg_origins(c, 1).via_any("std::path::Path::canonicalize"), c.where(), "read_cnf: the visited test uses the canonical path", ["acmed::config::read_cnf", "test-canonical"])
+        for c in ins2:
+            ctx.require(R3, arg_origins(c, 1).via_any("std::path::Path::canonicalize"), c.where(), "read_cnf: the recorded path is the canonical path", ["acmed::config::read_cnf", "insert-canonical"])
     for scc in rec:
         if hook_eval and len(scc) > 1 and all(k in hook_reach or k.split("::{closure")[0] in hook_reach for k in scc):
             ctx.ok(R3, "hook resolution (recursing through %s): recursion bounded on the evaluated sample family" % sorted(k.rsplit("::", 1)[-1] for k in scc))
@@ -211,6 +222,11 @@ def check(ctx):
     check_period_grammar(ctx)
 
 
+def body_family_(prog, key):
+    from .guards import body_family
+    return body_family(prog, key)
+
+
 def check_period_grammar(ctx):
     prog = ctx.prog
     R5 = ctx.rule("R5", "period grammar: unit set = multiplier table = {s:1,m:60,h:3600,d:86400,w:604800}; checked arithmetic; whole-string match; parts summed")
@@ -239,6 +255,14 @@ def check_period_grammar(ctx):
             r = it.run({}, start_bb=t["otherwise"])
             default = first_int(r)
     ctx.require(R5, table == UNITS, "%s:%s" % (gm.file, gm.line), "multiplier table = %s (expected %s)" % (table, UNITS), ["get_multiplicator", "table"])
+    # the unit is exactly ONE character: a run of unit letters (`10ms`, `1hd`) is not in the documented grammar, and the table above only
+    # looks at the first character
+    takers = [c for fb in body_family_(prog, "acmed::duration::get_multiplicator") for c in fb.calls if c.bb in fb.live_blocks() and (c.name or "").startswith("nom::bytes::")
+              and (c.name or "").rsplit("::", 1)[-1] in ("take_while_m_n", "take_while", "take_while1", "take", "take_till", "take_till1", "take_until", "is_a", "is_not")]
+    greedy = [c for c in takers if not ((c.name or "").endswith("take_while_m_n") and [(op_const(a) or {}).get("int") for a in c.args[:2]] == [1, 1])
+              and not ((c.name or "").endswith("::take") and (op_const(c.args[0]) or {}).get("int") == 1)]
+    ctx.require(R5, not greedy, greedy[0].where() if greedy else "%s:%s" % (gm.file, gm.line), "the unit of a period part is read as exactly one character (%s)" % [c.name.rsplit("::", 1)[-1] for c in greedy],
+                ["get_multiplicator", "unit-length"])
     gp = prog.must_body("acmed::duration::get_duration_part")
     # number * multiplier with checked_mul, overflow -> error
     cm = gp.calls_to("core::num::<impl u64>::checked_mul")
